@@ -15,11 +15,13 @@ from vf.gen.simple import glass
 sel = st.integers(0, 1000)
 KINDS = ('index', 'radius', 'thickness', 'stop', 'conic')
 ALL_KINDS = KINDS + ('tilt', 'decenter')
+WITH_SCALE = ALL_KINDS + ('scale',)
 
 
 def edit_strategy(kinds=KINDS, p_none=1):
     one = st.fixed_dictionaries(dict(kind=st.sampled_from(list(kinds)), s=sel, f=st.floats(0.8, 1.25)))
-    return st.one_of(*([st.none()] * p_none + [one, one]))
+    from vf.gen.util import weighted
+    return weighted((p_none, st.none()), (2, one))
 
 
 def apply_edit(o, spec, ed, keep_image_medium=False):
@@ -77,6 +79,15 @@ def apply_edit(o, spec, ed, keep_image_medium=False):
             return None
         Variable(o, kind, surface_number=k, axis=axis, apply_scaling=False).update(S[k - 1][key])
         return s2
+    if kind == 'scale':
+        # Optic.scale_system(): planes and conics, angular fields (what the library's method handles)
+        if any(q['type'] != 'standard' for q in S) or spec['ftype'] != 'angle' or spec['img'].get('shape'):
+            return None
+        sc = round(f ** 4, 6)
+        if sc == 1.0:
+            return None
+        o.scale_system(sc)
+        return scaled_spec(spec, sc)
     if kind == 'stop':
         cur = [i for i, q in enumerate(S) if q['stop']]
         cand = [i for i in range(K) if i not in cur]
@@ -122,3 +133,33 @@ def warm_all(o):
     o.trace(f[0], f[1], w, 2, 'hexapolar')
     o.trace_generic(np.zeros(2), np.array([0.0, 1.0]), np.zeros(2), np.array([0.5, 0.0]), w)
     o.aberrations.seidels()
+
+
+def scaled_spec(spec, s):
+    """the prescription with every length multiplied by s"""
+    t = copy.deepcopy(spec)
+    if t['obj']['t'] != GL.INF:
+        t['obj']['t'] = t['obj']['t'] * s
+    for q in t['surfs']:
+        if q['R'] != GL.INF:
+            q['R'] = q['R'] * s
+        q['t'] = q['t'] * s
+        q['dx'] *= s
+        q['dy'] *= s
+        if q.get('hd'):
+            q['hd'] *= s
+        if q['type'] == 'even_asphere' and q['coef']:
+            q['coef'] = [c * s ** (1 - 2 * (i + 1)) for i, c in enumerate(q['coef'])]
+        elif q['type'] == 'polynomial' and q['coef']:
+            q['coef'] = [[c * s ** (1 - i - j) for j, c in enumerate(row)] for i, row in enumerate(q['coef'])]
+        elif q['type'] == 'chebyshev' and q['coef']:
+            q['coef'] = [[c * s for c in row] for row in q['coef']]
+            q['norm'] = q['norm'] * s
+        if q['ap']:
+            q['ap'] = dict(r_max=q['ap']['r_max'] * s, r_min=q['ap'].get('r_min', 0.0) * s)
+    if t['ap']['type'] == 'EPD':
+        t['ap']['value'] *= s
+    if t['ftype'] == 'object_height':
+        for fd in t['fields']:
+            fd['y'] *= s
+    return t
